@@ -409,16 +409,30 @@ def eval_cases(run, name, exprs, chunk=60):
 
 
 # ------------------------------------------------------------------ part A/B: probabilities
+def all_ordered_sublists(n):
+    import itertools
+    return [list(p) for k in range(n + 1) for p in itertools.permutations(range(n), k)]
+
+
 def part_probabilities(run, rng, be, count):
     from qibo import Circuit, gates
     items, meta = [], []
-    for i in range(count):
+    forced = []
+    if run.tier == "thorough":
+        # exhaustive small scope: every ordered duplicate-free qubit list for n <= 4 (state vector)
+        # and n <= 3 (density matrix)
+        forced = [(n, qs, False) for n in range(1, 5) for qs in all_ordered_sublists(n)]
+        forced += [(n, qs, True) for n in range(1, 4) for qs in all_ordered_sublists(n)]
+        run.notes["exhaustive_qubit_lists"] = f"{len(forced)} (all ordered sub-lists, n<=4 state vector, n<=3 density matrix)"
+    for i in range(count + len(forced)):
         crng = random.Random(f"{run.seed}:probs:{i}")
         n = crng.randint(1, 5 if i % 4 else 3)
         dm = (i % 3 == 2)
         if dm:
             n = min(n, 3)
         qs = ordered_sublist(crng, n, 0 if i % 7 == 0 else 1, want_unsorted=True)
+        if i >= count:
+            n, qs, dm = forced[i - count]
         label = f"probs_{'dm' if dm else 'sv'}:n={n}:qs={','.join(map(str, qs))}:case{i}"
         if not dm:
             psi = gauss_state(crng, n)
@@ -461,7 +475,13 @@ def part_probabilities(run, rng, be, count):
         run.case({"probs": label, "impl": ints}, nontriv)
         if i < 2:
             run.sample(meta[-1][1])
-    res, _ = run.coq_bools("probs.v", HEADER, items, timeout=900)
+    res = {}
+    for ci in range(0, len(items), 400):
+        part, _ = run.coq_bools(f"probs_{ci // 400}.v", HEADER, items[ci:ci + 400], timeout=900)
+        if part is None:
+            res = None
+            break
+        res.update(part)
     if res is None:
         run.oblige("correspondence:probabilities", False, "correspondence")
         run.find("probs:coq-failed", "generated probabilities file did not compile", {}, concrete=False)
@@ -683,8 +703,9 @@ def collapse_circuit_case(run, be, i):
         in_ints = exact_ints(np.concatenate([st_in.real, st_in.imag]), 2 ** j)
         dim = 2 ** n
         psi_in = [complex(in_ints[x], in_ints[dim + x]) for x in range(dim)]
+        rec_s = recorded[s] if s < len(recorded) else []
         expr = (f"collapse_case {n}%nat {nat_list(tq)} {shot}%nat {zi_list(psi_in)} "
-                f"[{'; '.join(t for _, t, _ in post)}]")
+                f"[{'; '.join(t for _, t, _ in post)}] {bits_lit(rec_s)}")
         cases.append({"expr": expr, "tq": tq, "n": n, "shot": shot, "j": j, "psi_in": psi_in, "qubits_passed": qubits,
                       "recorded": recorded[s] if s < len(recorded) else None, "st_out": st_out, "final": finals[s] if s < len(finals) else None,
                       "post": [t for _, _, t in post], "final_samples": np.asarray(res.samples()).tolist()[s] if s < nshots else None,
@@ -740,7 +761,7 @@ def part_collapse(run, rng, be, count):
                      "the state after M(..., collapse=True) is not the projection onto the recorded outcome read in the order of the gate's qubits", info)
         if not good:
             ok_all = False
-            run.find(f"collapse:{srt}:M({tqs}):model", "collapse model disagrees with the implementation", info, concrete=not sorted_ok)
+            run.find(f"collapse:{srt}:M({tqs}):model", "collapse model disagrees with the implementation", info, concrete=False)
     run.oblige("correspondence:collapse", ok_all, "correspondence")
 
 
@@ -954,6 +975,16 @@ def static_obligations(run, theory):
     return names
 
 
+def coqchk(run, module):
+    """thorough tier: re-check the compiled cone of the Props file with the independent checker"""
+    rc, out = vcore.sh(f"timeout 1500 coqchk -silent -o -Q theories QV {module}", timeout=1600, cwd=vcore.COQ)
+    ok = rc == 0 and "Axioms: <none>" in out
+    run.oblige(f"coqchk:{module}", ok, "checker")
+    run.checker_cmds.append(f"coqchk -silent -o -Q theories QV {module}")
+    if not ok:
+        run.find(f"coqchk:{module}", "coqchk failed or reports axioms: " + out[-400:], {}, concrete=False)
+
+
 def main(run):
     rng = random.Random(run.seed)
     be = backend()
@@ -963,6 +994,8 @@ def main(run):
     run.assumptions += ["exact arithmetic (float rounding not modelled); bit-flip probabilities p = 0",
                         "np.random.choice / np.random.shuffle / sample_frequencies are oracles: only their contract (count, support, permutation) is assumed, and checked on every draw"]
     names = static_obligations(run, "C03/Props")
+    if run.tier == "thorough":
+        coqchk(run, "QV.C03.Props")
     run.not_proved += [n[: -len("_partial")] + " (full statement; see the _partial theorem)" for n in names if n.endswith("_partial")]
     b = budgets(run.tier)
     part_probabilities(run, rng, be, b["probs"])
@@ -988,8 +1021,6 @@ def replay(run, data):
     elif part == "collapse":
         cases = collapse_circuit_case(run, be, i)
         run.notes["replayed"] = [c["expr"] for c in cases]
-        # re-run the whole part restricted to this case
-        saved = globals()["collapse_circuit_case"]
         part_collapse_single(run, be, cases)
     elif part == "symbols":
         part_symbols_range(run, be, [i])
